@@ -140,6 +140,19 @@ CLAIMED = {
             "The clock is the synctest bubble's; stamps are whole seconds as in the cache document.",
             "TLC exhaustive check of Store.tla (expiry configuration) + TLC trace validation of recorded synctest histories",
             "DESIGN.md §4 C19"),
+    "C15": ("model_checking",
+            "Updater.tla splits NewUpdater (register the watcher / read the secret / build) and Updater.Get (take u.mu and drain the one-slot "
+            "notification / read / build / close the replaced value / return) at the code's critical sections and lets installs (the end of a "
+            "successful poll: new values + notifications under the store lock) happen between any two of them. TLC checks WakeNotLost (a stale "
+            "value always has a pending notification or a reported failure), ReturnFresh, NoSpuriousBuild, CloseOnce, AllClosed and FailKeeps over "
+            "all interleavings of 2 updaters, 1-2 concurrent Get callers, 1-2 names, install bursts and builder failures. Real updaters on a real "
+            "Store are driven sequentially (bursts of 1-3 installs between Gets, builder failures, several updaters, cache write failures) and "
+            "concurrently (installer, 2-3 Get goroutines, an updater created mid-flight; race detector on); every builder call, Close and returned "
+            "value is logged and TLC (UpdaterTrace) searches for the placement of the unlogged steps that explains them.",
+            "Versions stand for bytes (64-byte recognisable values; the builder checks it got a whole value of the right secret). Quick tier checks "
+            "two reduced products (one name / one Get caller); thorough the full one (29.6 M states).",
+            "TLC exhaustive check of Updater.tla + TLC trace validation (with schedule search) of recorded sequential and concurrent histories",
+            "DESIGN.md §4 C15"),
 }
 
 ALL = ["C%02d" % i for i in range(1, 21)]
